@@ -17,6 +17,6 @@ SPEC = {
         "token offsets and error message texts are not modelled (they only feed error messages)",
         "keyword comparison: strings.ToLower / EqualFold on the words concerned add no match beyond ASCII case folding (argued in Grammar.lean; covered by 8-bit bytes in the generators)",
     ],
-    "explanation": "Lean round-trip theorem cmd_roundtrip: parse(print c cmd ++ tail) = cmd with exactly the line consumed, for all 28 commands of the dispatch table + DONE, all well-formed argument values, all encoding/case choices (plus the component theorems string/number/seqset/flaglist/date/datetime/searchkey (structural induction, any depth)/fetchattr/section/partial_roundtrip); the model is tied to the real parser by differential testing with random chunking; a judge compares the real parser's answer with the generated abstract command. Coverage note: UNDER THEOREM: every command (CAPABILITY IDLE NOOP LOGOUT CHECK CLOSE EXPUNGE UNSELECT STARTTLS LOGIN SELECT EXAMINE CREATE DELETE SUBSCRIBE UNSUBSCRIBE RENAME LIST LSUB STATUS STORE COPY MOVE UID{COPY,MOVE,FETCH,SEARCH,STORE,EXPUNGE} FETCH APPEND SEARCH ID DONE). EXCLUDED from the theorem by a named condition, each with a witness theorem and flagged by the judge on the real code: the empty literal {0} (literal0_witness, #17), '[' inside atoms/tags (lbracket_atom_witness), list-mailbox written as a literal (list_literal_witness). ONLY UNDER CORRESPONDENCE: chunking of the byte stream across network reads, leading zeros of numbers, 8-bit bytes inside quoted strings, repeated ID keys (map semantics), more than one command per connection.",
-    "coverage_note": "all commands under cmd_roundtrip; excluded inputs: {0}, '[' in atoms, literal list-mailbox (witness theorems + judge); chunking / leading zeros / duplicate ID keys only under correspondence",
+    "explanation": "Lean round-trip theorem cmd_roundtrip: parse(print c cmd ++ tail) = cmd with exactly the line consumed, for all 28 commands of the dispatch table + DONE, all well-formed argument values, all encoding/case choices (plus the component theorems string/number/seqset/flaglist/date/datetime/searchkey (structural induction, any depth)/fetchattr/section/partial_roundtrip); the model is tied to the real parser by differential testing with random chunking; a judge compares the real parser's answer with the generated abstract command. Coverage note: UNDER THEOREM: every command (CAPABILITY IDLE NOOP LOGOUT CHECK CLOSE EXPUNGE UNSELECT STARTTLS LOGIN SELECT EXAMINE CREATE DELETE SUBSCRIBE UNSUBSCRIBE RENAME LIST LSUB STATUS STORE COPY MOVE UID{COPY,MOVE,FETCH,SEARCH,STORE,EXPUNGE} FETCH APPEND SEARCH ID DONE). EXCLUDED from the theorem by a named condition, each with a witness theorem and flagged by the judge on the real code (known findings): '[' inside atoms/tags (lbracket_atom_witness), list-mailbox written as a literal (list_literal_witness). The empty literal {0} (#17, repaired by e5f2a7d) is inside string_roundtrip. ONLY UNDER CORRESPONDENCE: chunking of the byte stream across network reads, leading zeros of numbers, 8-bit bytes inside quoted strings, repeated ID keys (map semantics), more than one command per connection.",
+    "coverage_note": "all commands under cmd_roundtrip; excluded inputs: '[' in atoms, literal list-mailbox (witness theorems + judge = known findings); chunking / leading zeros / duplicate ID keys only under correspondence",
 }
